@@ -181,8 +181,9 @@ def r3(ctx):
         rr = st.reachable(bi, removed_blocks=[x[0] for x in sends])
         # the main loop head must not be reachable without passing a send
         outer = [h for h in heads if bi in st.reachable(h) and h in st.reachable(bi)]
-        main = [h for h in outer if all(h2 in st.reachable(h) for h2 in outer)]
-        ok = bool(main) and not any(h in rr for h in main[:1]) and not any(x in rr for x in st.return_blocks())
+        # the main loop: the header that dominates every other header of that cycle
+        main = [h for h in outer if all(h2 == h or h2 not in st.reachable(0, removed_blocks=[h]) for h2 in outer)]
+        ok = len(main) == 1 and main[0] not in rr and not any(x in rr for x in st.return_blocks())
         for sbi, s_t in sends:
             ok = ok and any(x[0] == "call" and short(x[1]).endswith("Query::into_result") for x in walk(sp.operand(s_t.args[0])))
     rule.check(ok, "Service::start: a finished or timed-out query's result is sent on its callback on every path", "service|result-handover",
